@@ -6,6 +6,7 @@ package main
 import (
 	"fmt"
 	"go/types"
+	"math"
 	"math/big"
 	"strings"
 	"unicode/utf8"
@@ -244,7 +245,20 @@ func (e *Engine) encodeValue(ctx encCtx, v Value, t types.Type) (*Node, Iface) {
 			n.content = s.r
 			return n, Iface{}
 		case u.Info()&types.IsFloat != 0:
-			n := e.newNode(7, tt.Var(e.freshName("floatbits"), 64))
+			// ShortestFloatNone (default): a float64 is always 8 bytes; the bit pattern is carried opaquely
+			var bits *Term
+			if o, ok := v.(OpaqueV); ok {
+				switch d := o.data.(type) {
+				case *Term:
+					bits = d
+				case float64:
+					bits = e.c64(math.Float64bits(d))
+				}
+			}
+			if bits == nil {
+				bits = tt.Var(e.freshName("floatbits"), 64)
+			}
+			n := e.newNode(7, bits)
 			n.wvar = tt.BVu(8, 8)
 			return n, Iface{}
 		}
@@ -1264,7 +1278,11 @@ func (e *Engine) parseAny(ctx decCtx, n *Node) (Iface, Iface) {
 	case 7:
 		w := e.nodeWidth(n)
 		if wk, ok := e.concretizeAmong(w, []uint64{0, 1, 2, 4, 8}); ok && wk >= 2 {
-			return Iface{typ: types.Typ[types.Float64], val: OpaqueV{kind: "float", data: n.id}}, Iface{}
+			bits := n.arg
+			if wk != 8 {
+				bits = tt.UF("float_to_f64", 64, e.c64(wk), n.arg) // half / single precision widened to float64 (uninterpreted)
+			}
+			return Iface{typ: types.Typ[types.Float64], val: OpaqueV{kind: "float", data: bits}}, Iface{}
 		}
 		if e.branch(tt.Eq(n.arg, e.c64(20))) {
 			return Iface{typ: types.Typ[types.Bool], val: tt.Bool(false)}, Iface{}
